@@ -51,9 +51,11 @@ func TestC05Controlled(t *testing.T) {
 	p := baseProfile
 	p.wEvents = 3
 	p.maxOps = 25
+	p.wDone = 1
+	p.minWatch = 2
 	vrt.Check(t, vrt.Prop[Scenario]{
 		ID: "C05", Name: "controlled",
-		Rule: "histories of 1..25 operations (value reports from 1..3 fake watching sources, blocking or not, views, Events reads, registrations, EnableVerification) against a real Dials inside a testing/synctest bubble, quiescence (synctest.Wait) after every step; " +
+		Rule: "histories of 1..25 operations (value reports from 2..3 fake watching sources, blocking or not, views, Events reads, registrations, EnableVerification, watchers that finish with Done while others keep reporting) against a real Dials inside a testing/synctest bubble, quiescence (synctest.Wait) after every step; " +
 			"oracle: after every step the view deep-equals the pure reference stack of the defaults and each source's latest reported value (or the last version that verified), every installed version's serial is its predecessor's + 1 (sampled at the store by a schedule point), View and ViewVersion agree, Events delivers exactly the model's pending version; " +
 			"non-trivial = >=3 installs from >=2 sources; distinct = distinct scenario JSON",
 		Assumptions: []string{"sources report values of the pointerified type they were given", "the harness observes stores through the verif-tagged schedule point mon.stored"},
@@ -70,12 +72,14 @@ func TestC04Controlled(t *testing.T) {
 	p := baseProfile
 	p.invalidPct = 35
 	p.globalCBs = 90
-	p.holds = []string{"verify", "stored"}
+	p.holds = []string{"verify", "stored", "reply"}
 	p.holdPct = 35
+	p.cancelCallerPct = 35 // abandoned blocking reports: the next report must still get ITS OWN answer
+	p.blockPct = 60
 	p.wRegister, p.wUnregister = 2, 1
 	vrt.Check(t, vrt.Prop[Scenario]{
 		ID: "C04", Name: "controlled",
-		Rule: "histories of 1..14 operations whose stacked results alternate between valid and invalid (negative Limit), blocking and not, under every combination of SkipInitialVerification / DelayInitialVerification, with the monitor parked inside Verify or right after the store while readers view / register; " +
+		Rule: "histories of 1..14 operations whose stacked results alternate between valid and invalid (negative Limit), blocking and not, under every combination of SkipInitialVerification / DelayInitialVerification, with the monitor parked inside Verify, right after the store or right before it answers while readers view / register and while some blocking callers give up (context cancelled in the window); " +
 			"oracle: exact reference model - a rejected update is never stored (store log), leaves view and serial unchanged, makes a blocking report return the verifier's error, and produces exactly one OnWatchedError(err, current, rejected) in order; the candidate is not visible while Verify runs; the stored pointer is the verified one; Config fails iff the initial stack is invalid and verification is active; " +
 			"non-trivial = at least one accepted and one rejected update; distinct = distinct scenario JSON",
 		Assumptions: []string{"the callback queue is kept below its capacity so the documented drop-on-overflow never triggers", "unstackable updates (errors from stacking itself) are exercised by TestC04Unstackable"},
@@ -98,9 +102,10 @@ func TestC06Controlled(t *testing.T) {
 	p.slowPct = 20
 	p.maxOps = 18
 	p.unregTwicePct = 15
+	p.shutdownPct = 30 // the monitor exits (cancel / all Done) with events still queued behind a slow callback: they are still delivered
 	vrt.Check(t, vrt.Prop[Scenario]{
 		ID: "C06", Name: "controlled",
-		Rule: "histories of installs, ViewVersion+RegisterCallback pairs with fresh / stale-by-k / zero serials, unregistrations (also twice), slow callbacks that park the callback goroutine, and registrations forced into the window between 'version stored' and 'new-config event queued' by parking the monitor at the schedule point after the store; " +
+		Rule: "histories of installs, ViewVersion+RegisterCallback pairs with fresh / stale-by-k / zero serials, unregistrations (also twice), slow callbacks that park the callback goroutine, registrations forced into the window between 'version stored' and 'new-config event queued' by parking the monitor at the schedule point after the store, and (30%) a shutdown (cancel or every watcher Done) with events still queued behind a slow callback that is released afterwards; " +
 			"oracle: a FIFO model of the callback goroutine yields the exact global call list (who, old, new by pointer identity): serialized, in install order, never a version <= the registered one, catch-up iff the serial came from ViewVersion and a newer version had been announced when the registration was processed, none after unregister returned true, no installed version skipped, old = immediate predecessor; " +
 			"non-trivial = a registration processed inside the store/event window followed by >=2 installs; distinct = distinct scenario JSON",
 		Assumptions: []string{"the callback queue is kept below its capacity (64) so the documented drop-on-overflow never triggers"},
@@ -154,10 +159,12 @@ func TestC09Controlled(t *testing.T) {
 	p.wEnable, p.wReportErr = 5, 4
 	p.wRegister, p.wUnregister = 1, 0
 	p.maxOps = 12
+	p.shutdownPct = 20 // every watcher finishes (or the context ends) and EnableVerification is called afterwards
+	p.lateOps = []string{"enable", "enable", "view"}
 	vrt.Check(t, vrt.Prop[Scenario]{
 		ID: "C09", Name: "controlled",
-		Rule: "all four combinations of DelayInitialVerification x CallGlobalCallbacksAfterVerificationEnabled (delay drawn with probability 2/3), 0..3 watching sources, sequences of valid / invalid reports, source error reports and repeated EnableVerification calls in any order; " +
-			"oracle: exact state machine over the Verify log (no Verify before the first enable; an enable verifies exactly the installed pointer once; success returns that config and serial and every later re-stack is verified; failure returns the error and leaves the delay in force), and the exact global-callback list (OnNewConfig and OnWatchedError incl. source errors withheld iff delay in force AND the suppress option); " +
+		Rule: "all four combinations of DelayInitialVerification x CallGlobalCallbacksAfterVerificationEnabled (delay drawn with probability 2/3), 0..3 watching sources, sequences of valid / invalid reports, source error reports and repeated EnableVerification calls in any order, in a fifth of the histories followed by a shutdown (cancel, or every watcher Done) and further EnableVerification calls; " +
+			"oracle: exact state machine over the Verify log (no Verify before the first enable; an enable verifies exactly the installed pointer once; success returns that config and serial and every later re-stack is verified; failure returns the error and leaves the delay in force), and the exact global-callback list (OnNewConfig and OnWatchedError incl. source errors withheld iff delay in force AND the suppress option); an enable after shutdown while the delay is still in force never reports success (nothing verified); " +
 			"non-trivial = an enable that fails and one that succeeds, or a source error; distinct = distinct scenario JSON",
 		Assumptions: []string{"re-stack errors while callbacks are suppressed follow the same rule as source errors (the statement says global callbacks are withheld only in that state)"},
 		Gen: func(t *rapid.T) Scenario {
